@@ -548,6 +548,11 @@ def dscore(obs, sim, eps=1e-6):
     # Compute obs rank
     oranks = np.argsort(np.argsort(obs))
 
+    # Forecasts that all have the same rank do not discriminate
+    # (the rank correlation is not defined)
+    if np.ptp(franks) < 1e-10:
+        return 0.5
+
     # Compute rank correlation
     D = (np.corrcoef(oranks, franks)[0, 1]+1)/2
 
